@@ -238,3 +238,19 @@ Proof.
   apply H; try reflexivity; try lia.
   apply Forall_cons; [unfold zlen; simpl; lia | apply Forall_nil].
 Qed.
+
+(* the main theorem applies to it: compute_full on a concrete 9-sample signal is
+   the documented definition, which here has (9 + 1) / 2 = 5 non-empty frames *)
+Example full_eq_spec_instance :
+  let c := mkCfg Z 2 6 1 8 false (geom_nblk 8 6 2) [[1; 2; 3; 0; -1; 2]] [1; 2] [3; 1] in
+  let xs := [3; -1; 4; 1; -5; 9; 2; -6; 5] in
+  (exists st', compute_full Z 0 Z.add Z.mul (phiZ true) idZ c (mkState Z [] [] 0 0 0 false DF64) (DF32, xs)
+               = Ok (st', DF32, si_spec Z 0 Z.add Z.mul (phiZ true) idZ c xs) /\ started Z st' = false)
+  /\ zlen (si_spec Z 0 Z.add Z.mul (phiZ true) idZ c xs) = 5.
+Proof.
+  intros c xs. split.
+  - destruct Z_laws as (A & B & C).
+    apply (compute_full_spec Z 0 Z.add Z.mul (phiZ true) idZ A B C c _ DF32 xs pre_satisfiable);
+      reflexivity.
+  - vm_compute. reflexivity.
+Qed.
